@@ -126,7 +126,9 @@ func ruleC03(p *Prog, r *Result) {
 		}
 		return false
 	})
-	done := selectPaths(pd.paths, func(pa *Path) bool { return guardPol(pa, "itermore", mOp("range", docs), nil) == -1 && pa.End == "return" })
+	done := selectPaths(pd.paths, func(pa *Path) bool {
+		return guardPol(pa, "itermore", mOp("range", docs), nil) == -1 && pa.End == "return"
+	})
 	noParent := func(pa *Path) int {
 		for _, g := range pa.Guards {
 			if g.Kind == "truth" && g.A.Op == "carried" && g.A.Name == "noParent" {
